@@ -49,6 +49,9 @@ public:
 	std::function<void(size_t dst, size_t src, const std::vector<std::string> &ints)> on_receive;
 	// called when an honest party's Receive from a given peer timed out (dst, src or n)
 	std::function<void(size_t dst, size_t src)> on_timeout;
+	// full-stack mode: a unit that passed tap / filter is handed to a real channel endpoint instead of
+	// being queued here (the endpoint's bytes then travel through simulated descriptors)
+	std::function<void(size_t src, size_t dst, const Unit &u)> deliver_override;
 	uint64_t units_sent, ints_sent, units_handed;
 	uint64_t tag;                     // history tag to distinguish several nets
 
@@ -71,6 +74,11 @@ public:
 		S->hist.add(H_SEND, (tag << 32) | (src << 16) | dst, u.ints.size());
 		for (size_t k = 0; k < u.ints.size(); k++)
 			S->hist.add_str(H_SEND, u.ints[k]);
+		if (deliver_override)
+		{
+			deliver_override(src, dst, u);
+			return;
+		}
 		if (!auto_deliver)
 		{
 			flight[src][dst].push_back(u);
